@@ -42,7 +42,7 @@ PRIMITIVE_NODES = {"StrMethod", "IntMethod", "FloatMethod", "BoolMethod", "NoneM
 
 
 def strategy(tier):
-    cfg = {"max_depth": 3 if tier == "quick" else 4, "std": True, "leaf_validators": True, "generics": True}
+    cfg = {"max_depth": 3 if tier == "quick" else 4, "std": True, "leaf_validators": True, "generics": True, "root_schema": True}
     return tdcase.td_cases(cfg, n_data=(4, 10))
 
 
@@ -62,13 +62,14 @@ def run_impl(tp, d, kw, method=None):
         return "crash", e
 
 
-def compare(b, model, t, d, c, kw, method=None):
-    """None if model and implementation agree (or UNSPECIFIED), else (dir, detail)."""
+def compare(b, model, t, d, c, kw, method=None, percall=False):
+    """None if model and implementation agree (or UNSPECIFIED), else (dir, detail).  `percall`: the constraints c
+    reach the implementation through the schema= argument already in kw, not through an Annotated wrapper."""
     try:
         verdict, val = model.deserialize(t, d, c)
     except M.Unspecified:
         return None
-    tp = b.typeof(tdcase.wrap_c(t, c))
+    tp = b.typeof(t if percall else tdcase.wrap_c(t, c))
     got, res = run_impl(tp, d, kw, method)
     if got == "crash":
         return None
@@ -117,7 +118,8 @@ def evaluate(case, ctx):
 
 def _evaluate(case, ctx, b, prog, opts):
     kw = tdcase.api_kwargs(opts)
-    model = M.Model(prog, M.Opts(**opts))
+    rc = opts.get("root_schema")
+    model = M.Model(prog, M.Opts(**{k: v for k, v in opts.items() if k != "root_schema"}))
     tp = b.root
     try:
         method = deserialization_method(tp, **kw)
@@ -130,18 +132,20 @@ def _evaluate(case, ctx, b, prog, opts):
     nonprim = {c for c in classes if c not in PRIMITIVE_NODES}
     for c in set(classes):
         ctx.h("node:" + c)
+    if rc:
+        ctx.h("per_call_schema")
     for item in case["data"]:
         d, tag = item["d"], item.get("tag", "?")
         ctx.count()
         try:
-            verdict, val = model.deserialize(prog["root"], d)
+            verdict, val = model.deserialize(prog["root"], d, rc)
         except M.Unspecified as u:
             ctx.h("unspecified")
             continue
         ctx.h(f"data:{tag.split(':')[0]}:{verdict}")
         dis = None
         for meth in (None, method):
-            dis = compare(b, model, prog["root"], d, None, kw, meth)
+            dis = compare(b, model, prog["root"], d, rc, kw, meth, percall=True)
             if dis is not None:
                 break
         if run_impl(tp, d, kw)[0] == "crash":
@@ -153,7 +157,7 @@ def _evaluate(case, ctx, b, prog, opts):
             ctx.sample({"type": b.source.split("ROOT = ")[-1].strip(), "options": opts, "datum": d,
                         "model": verdict, "nodes": sorted(nonprim)[:8]})
         if dis is not None:
-            lt, ld, lc = localize(b, model, prog["root"], d, None, kw, opts.get("aliaser", "id"))
+            lt, ld, lc = localize(b, model, prog["root"], d, rc, tdcase.sub_kwargs(kw), opts.get("aliaser", "id"))
             sig = {"dir": dis[0], "node": tdcase.node_sig(prog, tdcase.wrap_c(lt, lc)),
                    "datum": tdcase.json_class(ld)}
             ctx.violation(sig, {"prog": prog, "opts": opts, "data": [item]},
